@@ -83,7 +83,7 @@ for _n, _m in MODELS.items():
 
 # keys and scalar spellings used by the exhaustive small-document enumeration
 KEYS = {
-    'V': ['x', 'y', 'z'], 'P': ['a', 'b', 'c', 'd'], 'E': ['a', 'b'],
+    'V': ['x', 'y', 'z'], 'P': ['a', 'b', 'c', 'd'], 'E': ['a', 'b', 'self'],
     'D': ['some_key', 'some-key', 'col', 'u', 'l'], 'DS': ['some_key', 'some-key', 'n_1', 'n-1'],
     'T1': ['p', 'm', 'n', 'v', 'us', 'a', 'x'], 'U1': ['k', 'j'], 'U2': ['a', 'b'],
     'L': ['x', 'a', 'b'], 'DM': ['k', 'j'], 'DU': ['k', 'j'], 'AB': ['a', 'b'],
